@@ -3,7 +3,7 @@
    [step true k] / [pstep true kb ko] are the state machines of the code after
    fixes/C06-discount-validation.patch; [false] is the code as it is in /repo. *)
 From Coq Require Import List Arith QArith Bool Lia.
-From AIT Require Import Base.Qx C06.Model C06.Spec C06.ProofsProb C06.ProofsModel C06.ProofsEffect C06.ProofsConv C06.ProofsAmdp.
+From AIT Require Import Base.Qx C06.Model C06.Spec C06.ProofsProb C06.ProofsModel C06.ProofsEffect C06.ProofsConv C06.ProofsAmdp C06.ProofsAmdpAcc C06.ModelCoop C06.SpecCoop C06.ProofsCoop.
 Import ListNotations.
 Local Open Scope Q_scope.
 
@@ -68,23 +68,15 @@ Print Assumptions setDiscount_nan_history_refuted.
 
 (* ---- validate-then-commit --------------------------------------------------------------------- *)
 
-(* MDP::Model: every call either is accepted and leaves a valid model, or leaves the object
-   untouched; hence every history of calls (including failing ones) ends in a valid model *)
-Theorem setter_validate_then_commit :
-  (forall st o st' r, ovalid valid_model st -> step true Dense st o = (st', r) ->
+(* MDP::Model (k = Dense) and MDP::SparseModel (k = Sparse), repaired code: every call either is
+   accepted and leaves a valid model (rows within 1e-6 of 1, entries >= 0, discount in (0,1]), or leaves
+   the object untouched; hence every history of calls (including failing ones) ends in a valid model *)
+Theorem setter_validate_then_commit : forall k,
+  (forall st o st' r, ovalid valid_model st -> step true k st o = (st', r) ->
      ovalid valid_model st' /\ (r <> Ok -> st' = st)) /\
-  (forall ops, ovalid valid_model (run true Dense ops)).
+  (forall ops, ovalid valid_model (run true k ops)).
 Proof. exact setter_validate_then_commit_lemma. Qed.
 Print Assumptions setter_validate_then_commit.
-
-(* MDP::SparseModel (k = Sparse) and MDP::Model (k = Dense) with the tolerances each class really
-   guarantees (Spec.kneg / Spec.ksum) *)
-Theorem setter_validate_then_commit_kind : forall k,
-  (forall st o st' r, ovalid (valid_model_k k) st -> step true k st o = (st', r) ->
-     ovalid (valid_model_k k) st' /\ (r <> Ok -> st' = st)) /\
-  (forall ops, ovalid (valid_model_k k) (run true k ops)).
-Proof. exact setter_validate_then_commit_k_lemma. Qed.
-Print Assumptions setter_validate_then_commit_kind.
 
 (* POMDP::Model<M> (ko = Dense) and POMDP::SparseModel<M> (ko = Sparse) over either MDP base *)
 Theorem pomdp_setter_validate_then_commit : forall kb ko,
@@ -116,14 +108,40 @@ Theorem observation_setter_effect : forall fixed kb ko p obf p',
 Proof. exact psetO3_effect_lemma. Qed.
 Print Assumptions observation_setter_effect.
 
-(* the strict notion (rows within 1e-6 of 1, entries >= 0) fails for MDP::SparseModel: the setter
-   validates, then drops small entries; the stored row misses 1 by 1.8e-6 *)
+(* pinned commit: MDP::SparseModel::setTransitionFunction(T) validates, then drops small entries; the
+   stored row misses 1 by 1.8e-6.  Repaired code: the same call throws, the object is unchanged *)
 Theorem sparse_rows_within_epsS_refuted :
-  exists m, run true Sparse sparse_drop_ops = Some m /\
-            nth 0 (nth 0 (mT m) []) [] = [XFin (9999982 # 10000000); XFin 0; XFin 0] /\
-            valid_model_k Sparse m /\ ~ valid_model m.
+  (exists m, run false Sparse sparse_drop_ops = Some m /\
+             nth 0 (nth 0 (mT m) []) [] = [XFin (9999982 # 10000000); XFin 0; XFin 0] /\
+             valid_model_k0b Sparse m = true /\ ~ valid_model m) /\
+  (exists m, run true Sparse sparse_drop_ops = Some m /\ mT m = identity3 3 1).
 Proof. exact sparse_rows_within_epsS_refuted_lemma. Qed.
 Print Assumptions sparse_rows_within_epsS_refuted.
+
+(* pinned commit: setTransitionFunction(SparseMatrix3D) stores a row with a negative entry *)
+Theorem sparse_negative_stored_refuted :
+  (exists m, run false Sparse sparse_neg_ops = Some m /\ nth 0 (nth 0 (mT m) []) [] = neg_row_witness) /\
+  (exists m, run true Sparse sparse_neg_ops = Some m /\ mT m = identity3 2 1).
+Proof. exact sparse_negative_stored_refuted_lemma. Qed.
+Print Assumptions sparse_negative_stored_refuted.
+
+(* what the unrepaired sparse setter does guarantee for one row: entries >= 0 kept or dropped, row sum
+   within (n+1)*1e-6 of 1 *)
+Theorem sparse_drop_row_tolerance : forall n l, length l = n -> prob_row l ->
+  length (map drop_small l) = n /\ prob_row_tol (kneg0 Sparse) (ksum0 Sparse n) (map drop_small l).
+Proof. exact drop_small_prob_row. Qed.
+Print Assumptions sparse_drop_row_tolerance.
+
+(* the repaired SparseMatrix overload decides the library's own notion *)
+Theorem isProbability_sparse_fixed_iff : forall t, isProbabilityS3f true t = true <-> Forall (Forall prob_row) t.
+Proof. exact isProbability3_iff_lemma. Qed.
+Print Assumptions isProbability_sparse_fixed_iff.
+
+(* the reward oracle of the driver is sound (tolerance 0) *)
+Theorem reward_checker_sound : forall k m r, rewards_okb k 0 m r = true ->
+  forall s a, (s < mS m)%nat -> (a < mA m)%nat -> qentry_kept k (R_at m s a) (exp_reward m r s a).
+Proof. exact rewards_okb_sound. Qed.
+Print Assumptions reward_checker_sound.
 
 (* ---- conversions (stretch) --------------------------------------------------------------------- *)
 Theorem conversion_preserves : forall k0 k m m' r,
@@ -140,7 +158,7 @@ Print Assumptions conversion_preserves.
 (* conversions are partial: valid models exist that the other class refuses *)
 Theorem conversion_total_refuted :
   (exists m, run true Dense conv_reject_ops = Some m /\ valid_model m /\ convert true Sparse m = (None, Throw)) /\
-  (exists m, run true Sparse sparse_drop_ops = Some m /\ convert true Dense m = (None, Throw)).
+  (exists m, run false Sparse sparse_drop_ops = Some m /\ convert false Dense m = (None, Throw)).
 Proof. exact (conj conversion_can_reject_lemma sparse_to_dense_rejects_lemma). Qed.
 Print Assumptions conversion_total_refuted.
 
@@ -154,6 +172,21 @@ Theorem amdp_valid : forall fixed k s trow r,
 Proof. exact amdp_row_valid_lemma. Qed.
 Print Assumptions amdp_valid.
 
+(* … and the accumulation loop establishes that proviso for every (a, s): for EVERY list of
+   contributions (all sampled beliefs, any discretizer into [0,S1), any non-negative masses) every row
+   of the derived model is a distribution and every reward is finite *)
+Theorem amdp_valid_tables : forall fixed k S1 A cs, (fixed = true \/ k = Sparse) ->
+  Forall (contrib_ok S1 A) cs ->
+  forall a s, (a < A)%nat -> (s < S1)%nat ->
+    let TR := amdp_accumulate k S1 A cs in
+    amdp_row_valid (amdp_finish_row fixed k s (row (nth a (fst TR) []) s) (nthq (row (snd TR) s) a)).
+Proof. exact amdp_valid_tables_lemma. Qed.
+Print Assumptions amdp_valid_tables.
+
+Theorem contrib_checker_sound : forall S1 A c, contrib_okb S1 A c = true -> contrib_ok S1 A c.
+Proof. exact contrib_okb_sound. Qed.
+Print Assumptions contrib_checker_sound.
+
 Theorem amdp_valid_refuted :
   acc_row_ok [0; 0] 0 /\ snd (amdp_finish_row false Dense 0 [0; 0] 0) = XNaN /\
   snd (amdp_finish false Dense [[[0; 0]; [1 # 2; 1 # 2]]] [[0]; [3]]) = [[XNaN]; [XFin (12 # 4)]].
@@ -163,6 +196,61 @@ Print Assumptions amdp_valid_refuted.
 Theorem acc_row_checker_sound : forall trow r, acc_row_okb trow r = true -> acc_row_ok trow r.
 Proof. exact acc_row_okb_sound. Qed.
 Print Assumptions acc_row_checker_sound.
+
+(* ---- factored models: DDNGraph::push and CooperativeModel (stretch) ------------------------------ *)
+
+(* checkTag accepts exactly the non-empty, strictly increasing tags inside the space *)
+Theorem checkTag_iff : forall space tag, tag_fine space tag = true <-> tag_ok space tag.
+Proof. exact tag_fine_iff. Qed.
+Print Assumptions checkTag_iff.
+
+(* DDNGraph::push: accepted => the parent set is valid and appended; rejected => graph unchanged;
+   runtime_error exactly when the graph is already complete (it takes precedence), accepted exactly when
+   the graph is incomplete and the parent set is valid *)
+Theorem push_validate_then_commit : forall g p g' r, cpush g p = (g', r) ->
+  (r = POk -> cps_valid (cg_S g) (cg_A g) p /\
+              g' = {| cg_S := cg_S g; cg_A := cg_A g; cg_parents := cg_parents g ++ [p] |}) /\
+  (r <> POk -> g' = g) /\
+  (r = PRuntimeError <-> length (cg_parents g) = length (cg_S g)) /\
+  (r = POk <-> length (cg_parents g) <> length (cg_S g) /\ cps_valid (cg_S g) (cg_A g) p).
+Proof. exact cpush_spec. Qed.
+Print Assumptions push_validate_then_commit.
+
+(* every graph built by pushes (failing ones included) contains only valid nodes *)
+Theorem push_history_wf : forall S A ps, cgraph_wf (cpush_all {| cg_S := S; cg_A := A; cg_parents := [] |} ps).
+Proof. exact cpush_history_wf. Qed.
+Print Assumptions push_history_wf.
+
+(* CooperativeModel (repaired constructor, setDiscount): accepted => valid factored model (discount in
+   (0,1], complete graph, one matrix per feature of the right shape with distribution rows, well-formed
+   reward bases) stored as supplied; rejected => object unchanged; over all call histories *)
+Theorem coop_validate_then_commit :
+  (forall st o st' r, ovalid valid_coop st -> coop_step true st o = (st', r) ->
+     ovalid valid_coop st' /\ (r <> Ok -> st' = st)) /\
+  (forall ops, ovalid valid_coop (coop_run true ops)).
+Proof. exact coop_validate_then_commit_lemma. Qed.
+Print Assumptions coop_validate_then_commit.
+
+Theorem coop_ctor_stores_input : forall c m r, coop_ctor true c = (Some m, r) -> m = c /\ r = Ok /\ valid_coop c.
+Proof. exact coop_ctor_valid. Qed.
+Print Assumptions coop_ctor_stores_input.
+
+(* pinned commit: any discount is stored *)
+Theorem coop_discount_refuted :
+  coop_ctor false (coop_witness (XFin 5)) = (Some (coop_witness (XFin 5)), Ok) /\
+  coop_ctor false (coop_witness XNaN) = (Some (coop_witness XNaN), Ok) /\
+  coop_ctor true (coop_witness (XFin 5)) = (None, Throw) /\
+  coop_ctor true (coop_witness (XFin (1#2))) = (Some (coop_witness (XFin (1#2))), Ok).
+Proof. exact coop_discount_refuted_lemma. Qed.
+Print Assumptions coop_discount_refuted.
+
+Theorem push_checker_sound : forall S A p, cps_validb S A p = true -> cps_valid S A p.
+Proof. exact cps_validb_sound. Qed.
+Print Assumptions push_checker_sound.
+
+Theorem valid_coop_checker_sound : forall c, valid_coopb c = true -> valid_coop c.
+Proof. exact valid_coopb_sound. Qed.
+Print Assumptions valid_coop_checker_sound.
 
 (* ---- the oracle's checkers are sound ----------------------------------------------------------- *)
 Theorem valid_model_checker_sound : forall k m, valid_model_kb k m = true -> valid_model_k k m.
